@@ -123,3 +123,75 @@ func VerifC06Flush(om OffsetManager) { om.(*offsetManager).flushToBroker() }
 
 // VerifC06Release runs the second half of Commit (releasePOMs(false)) and returns what it returns.
 func VerifC06Release(om OffsetManager) int { return om.(*offsetManager).releasePOMs(false) }
+
+// ---- consumer-group session on top of the offset manager (consumer_group.go) ----
+
+// VerifC06Session describes one member session: the assigned partitions of one topic, the offsets the group has
+// stored for them, and the commit callback (the same vocabulary as the stand-alone coordinator above).
+type VerifC06Session struct {
+	Group      string
+	Topic      string
+	Partitions []int32
+	Stored     map[int32]VerifC06Block // what OffsetFetch answers (absent: -1, "")
+	OnCommit   func(VerifC06Commit) VerifC06Reply
+}
+
+type verifC06CommitMock struct{ s *VerifC06Session }
+
+func (m verifC06CommitMock) For(reqBody versionedDecoder) encoderWithHeader {
+	r := reqBody.(*OffsetCommitRequest)
+	vc := VerifC06Commit{Version: r.Version, Retention: r.RetentionTime, Group: r.ConsumerGroup,
+		Generation: r.ConsumerGroupGeneration, MemberID: r.ConsumerID}
+	for t, ps := range r.blocks {
+		for p, blk := range ps {
+			vc.Blocks = append(vc.Blocks, VerifC06Block{Topic: t, Partition: p, Offset: blk.offset, Timestamp: blk.timestamp, Metadata: blk.metadata})
+		}
+	}
+	sort.Slice(vc.Blocks, func(i, j int) bool {
+		if vc.Blocks[i].Topic != vc.Blocks[j].Topic {
+			return vc.Blocks[i].Topic < vc.Blocks[j].Topic
+		}
+		return vc.Blocks[i].Partition < vc.Blocks[j].Partition
+	})
+	rep := m.s.OnCommit(vc)
+	res := &OffsetCommitResponse{Version: r.Version}
+	for t, ps := range rep.Errors {
+		for p, code := range ps {
+			res.AddError(t, p, KError(code))
+		}
+	}
+	return res
+}
+
+// VerifC06InstallSession makes the mock broker the only broker, the group coordinator (one-member group: every
+// JoinGroup/SyncGroup hands the member all listed partitions) and the leader of the (empty) partitions.
+func (b *MockBroker) VerifC06InstallSession(t TestReporter, s *VerifC06Session) {
+	md := NewMockMetadataResponse(t).SetBroker(b.Addr(), b.BrokerID())
+	of := NewMockOffsetFetchResponse(t)
+	or := NewMockOffsetResponse(t).SetVersion(1)
+	fr := NewMockFetchResponse(t, 1).SetVersion(3)
+	for _, p := range s.Partitions {
+		md.SetLeader(s.Topic, p, b.BrokerID())
+		if st, ok := s.Stored[p]; ok {
+			of.SetOffset(s.Group, s.Topic, p, st.Offset, st.Metadata, ErrNoError)
+		} else {
+			of.SetOffset(s.Group, s.Topic, p, -1, "", ErrNoError)
+		}
+		or.SetOffset(s.Topic, p, OffsetOldest, 0).SetOffset(s.Topic, p, OffsetNewest, 1000)
+		fr.SetHighWaterMark(s.Topic, p, 1000)
+	}
+	b.SetHandlerByMap(map[string]MockResponse{
+		"MetadataRequest":        md,
+		"FindCoordinatorRequest": NewMockFindCoordinatorResponse(t).SetCoordinator(CoordinatorGroup, s.Group, b),
+		"JoinGroupRequest": NewMockJoinGroupResponse(t).SetGenerationId(1).SetGroupProtocol("range").
+			SetLeaderId("someone-else").SetMemberId("member-1"),
+		"SyncGroupRequest": NewMockSyncGroupResponse(t).SetMemberAssignment(&ConsumerGroupMemberAssignment{
+			Version: 1, Topics: map[string][]int32{s.Topic: s.Partitions}}),
+		"HeartbeatRequest":    NewMockHeartbeatResponse(t),
+		"LeaveGroupRequest":   NewMockLeaveGroupResponse(t),
+		"OffsetFetchRequest":  of,
+		"OffsetCommitRequest": verifC06CommitMock{s},
+		"OffsetRequest":       or,
+		"FetchRequest":        fr,
+	})
+}
